@@ -553,23 +553,19 @@ func insertSingleIteration(w *World, res *Resolver, insert *ssa.Function, spawn 
 	}
 	conv := w.Fn("shovel", "(*Task).Converge")
 	load := w.Fn("shovel", "(*Task).load")
+	reg := NewRegion(conv) // Converge with its single-use helpers (the write step may be extracted)
 	callers := res.CallersOf(insert)
-	if len(callers) != 1 || callers[0].Parent() != conv {
+	if len(callers) != 1 || !reg.Has(callers[0].Parent()) {
 		return false, "insert has callers other than Converge"
 	}
-	blocks := callers[0].Common().Args[3]
+	blocks := stripConv(reg.Resolve(stripConv(callers[0].Common().Args[3])))
 	call, idx := resultOf(blocks)
 	if call == nil || idx != 0 || staticCallee(call) != load {
 		return false, "insert's blocks are not load's result"
 	}
-	mc, ok := call.Call.Args[5].(*ssa.Call)
-	if !ok || calleeName(mc) != "builtin min" {
-		return false, "load's limit is not min(...)"
-	}
-	for _, a := range mc.Call.Args {
-		if isLoadOfField(a, fBatch) {
-			return true, "stride = batchSize, limit = min(_, batchSize), sole caller Converge"
-		}
+	ub := &ubound{fn: call.Parent(), reg: reg}
+	if ub.Bounded(call.Call.Args[5], func(v ssa.Value) bool { return isLoadOfField(v, fBatch) }) {
+		return true, "stride = batchSize, limit bounded by batchSize, sole caller Converge"
 	}
 	return false, "load's limit is not bounded by batchSize"
 }
